@@ -718,8 +718,23 @@ func init() {
 				if okDv {
 					arg := adds[0].Call.Args[1]
 					s := exprSig(arg, 0)
-					if !strings.Contains(s, "newDocNums") || !strings.HasSuffix(s, "[param:docNum]") {
-						okDv, why = false, "doc values are added under "+s+", not newDocNums[segment][docNum]"
+					// the document number must be a load of TABLE[docNum] where docNum is the visitor's parameter and
+					// TABLE derives from the newDocNums parameter of buildMergedDocVals (possibly via a captured local)
+					top := topFn(dvfn)
+					var tableParam *ssa.Parameter
+					for _, p := range top.Params {
+						if strings.HasSuffix(p.Type().String(), "[][]uint64") {
+							tableParam = p
+						}
+					}
+					okShape := false
+					if ld, ok := resolveCellLoad(c, arg).(*ssa.UnOp); ok && ld.Op == token.MUL {
+						if ia, ok := ld.X.(*ssa.IndexAddr); ok && stripConv(ia.Index) == ssa.Value(dvfn.Params[0]) && tableParam != nil && derivesFrom(c, ia.X, tableParam, 0) {
+							okShape = true
+						}
+					}
+					if !okShape {
+						okDv, why = false, "doc values are added under "+s+", which is not newDocNums[segment][docNum] of the remap tables"
 					}
 					// dominated by != docDropped
 					guarded := false
@@ -729,7 +744,7 @@ func init() {
 							break
 						}
 						if ifi, ok := idom.Instrs[len(idom.Instrs)-1].(*ssa.If); ok {
-							if bin, ok := ifi.Cond.(*ssa.BinOp); ok && (bin.Op == token.EQL || bin.Op == token.NEQ) && isDocDroppedConst(bin.Y) && exprSig(bin.X, 0) == s {
+							if bin, ok := ifi.Cond.(*ssa.BinOp); ok && (bin.Op == token.EQL || bin.Op == token.NEQ) && isDocDroppedConst(bin.Y) && (exprSig(bin.X, 0) == s || resolveCellLoad(c, bin.X) == resolveCellLoad(c, arg)) {
 								ne := idom.Succs[1]
 								if bin.Op == token.NEQ {
 									ne = idom.Succs[0]
@@ -803,69 +818,68 @@ func init() {
 			fn := c.MustFn("mergeStoredAndRemap")
 			key := fnName(fn) + "/copyStoredDocs"
 			calls := callsOf(fn, "(*Segment).copyStoredDocs")
-			if len(calls) != 1 {
-				r.undecided(key, fnName(fn), c.pos(fn.Pos()), "copyStoredDocs call not found")
-			} else {
-				b := calls[0].Block()
-				// every predecessor edge is the true edge of (dropsI == nil) or (card == 0)
-				okDrops := len(b.Preds) > 0
-				for _, p := range b.Preds {
-					ifi, ok := p.Instrs[len(p.Instrs)-1].(*ssa.If)
-					if !ok || p.Succs[0] != b {
-						okDrops = false
-						continue
-					}
-					s := exprSig(ifi.Cond, 0)
-					if !(strings.HasSuffix(s, "==nil)") || strings.HasSuffix(s, "==0)") && strings.Contains(s, "GetCardinality")) {
-						okDrops = false
-					}
+			mtw := c.MustFn("mergeToWriter")
+			// which parameter receives mergeFields' verdict?
+			var same *ssa.Parameter
+			for _, site := range c.callsTo(fn) {
+				if site.Parent() != mtw {
+					continue
 				}
-				// dominated by the true edge of fieldsSame
-				okSame := false
-				var same *ssa.Parameter
-				for _, p := range fn.Params {
-					if p.Name() == "fieldsSame" {
-						same = p
-					}
-				}
-				for x := b; x != nil; x = x.Idom() {
-					idom := x.Idom()
-					if idom == nil {
-						break
-					}
-					if ifi, ok := idom.Instrs[len(idom.Instrs)-1].(*ssa.If); ok && same != nil && ifi.Cond == ssa.Value(same) && idom.Succs[0] == x && len(x.Preds) == 1 {
-						okSame = true
-					}
-				}
-				switch {
-				case !okSame:
-					r.bad(key, fnName(fn), c.pos(calls[0].Pos()), "the byte-copy path is not guarded by fieldsSame: records would be copied with another segment's field ids")
-				case !okDrops:
-					r.bad(key, fnName(fn), c.pos(calls[0].Pos()), "the byte-copy path is not guarded by 'no deletions' (drops nil or empty)")
-				default:
-					r.ok(key, fnName(fn), c.pos(calls[0].Pos()), "guarded by fieldsSame && (drops == nil || drops empty)")
-				}
-				// the fieldsSame argument comes from mergeFields result 0
-				mtw := c.MustFn("mergeToWriter")
-				okArg := false
-				for _, site := range c.callsTo(fn) {
-					if site.Parent() != mtw {
-						continue
-					}
-					for i, p := range fn.Params {
-						if p == same {
-							if ex, ok := site.Common().Args[i].(*ssa.Extract); ok && ex.Index == 0 {
-								if call, ok := ex.Tuple.(*ssa.Call); ok && call.Call.StaticCallee() != nil && fnName(call.Call.StaticCallee()) == "mergeFields" {
-									okArg = true
-								}
-							}
+				for i, a := range site.Common().Args {
+					if ex, ok := a.(*ssa.Extract); ok && ex.Index == 0 {
+						if call, ok := ex.Tuple.(*ssa.Call); ok && call.Call.StaticCallee() != nil && fnName(call.Call.StaticCallee()) == "mergeFields" && i < len(fn.Params) {
+							same = fn.Params[i]
 						}
 					}
 				}
-				if okArg {
-					r.ok(fnName(fn)+"/fieldsSame-source", fnName(fn), c.pos(fn.Pos()), "fieldsSame is mergeFields' verdict")
-				} else {
-					r.bad(fnName(fn)+"/fieldsSame-source", fnName(fn), c.pos(fn.Pos()), "fieldsSame is not the first result of mergeFields over all segments")
+			}
+			if same == nil {
+				r.bad(fnName(fn)+"/fieldsSame-source", fnName(fn), c.pos(fn.Pos()), "mergeStoredAndRemap is not given the first result of mergeFields (the fields-are-identical verdict)")
+			} else {
+				r.ok(fnName(fn)+"/fieldsSame-source", fnName(fn), c.pos(fn.Pos()), "parameter "+same.Name()+" is mergeFields' verdict")
+			}
+			if len(calls) != 1 {
+				r.undecided(key, fnName(fn), c.pos(fn.Pos()), "copyStoredDocs call not found")
+			} else if same != nil {
+				// the drops bitmap of the segment being copied: drops[segI] with seg = segments[segI] the call's receiver
+				isDrops := func(v ssa.Value) bool {
+					ld, ok := v.(*ssa.UnOp)
+					if !ok || ld.Op != token.MUL {
+						return false
+					}
+					ia, ok := ld.X.(*ssa.IndexAddr)
+					return ok && ia.X == ssa.Value(fn.Params[1])
+				}
+				isCard := func(v ssa.Value) bool {
+					call, ok := v.(*ssa.Call)
+					return ok && call.Call.StaticCallee() != nil && call.Call.StaticCallee().Name() == "GetCardinality" && isDrops(call.Call.Args[0])
+				}
+				atoms := func(v ssa.Value) (int, bool, bool) {
+					if v == ssa.Value(same) {
+						return 0, false, true
+					}
+					if neg, ok := cmpNilAtom(v, isDrops); ok {
+						return 1, neg, true
+					}
+					if neg, ok := cmpZeroAtom(v, isCard); ok {
+						return 2, neg, true
+					}
+					if call, ok := v.(*ssa.Call); ok && call.Call.StaticCallee() != nil && call.Call.StaticCallee().Name() == "IsEmpty" && isDrops(call.Call.Args[0]) {
+						return 2, false, true
+					}
+					return 0, false, false
+				}
+				be := &boolExec{fn: fn, atoms: atoms, n: 3}
+				ok, cex, n := be.impliedAt(calls[0].Block(), func(asg uint) bool {
+					return asg&1 != 0 && (asg&2 != 0 || asg&4 != 0)
+				})
+				switch {
+				case n == 0:
+					r.undecided(key, fnName(fn), c.pos(calls[0].Pos()), "the byte-copy call is unreachable in the boolean abstraction")
+				case !ok:
+					r.bad(key, fnName(fn), c.pos(calls[0].Pos()), "the stored-field byte-copy path can be taken when "+describeAsg([]string{"fieldsSame", "drops==nil", "drops empty"}, cex)+": it requires fieldsSame && (drops == nil || drops empty)")
+				default:
+					r.ok(key, fnName(fn), c.pos(calls[0].Pos()), fmt.Sprintf("reachable only under fieldsSame && (drops == nil || drops empty) (%d of 8 assignments)", n))
 				}
 			}
 			// mergeFields: same=false decided for every (segment, field) pair
@@ -940,38 +954,132 @@ func init() {
 				r.bad(key, fnName(fn), c.pos(fn.Pos()), "no `return true` found")
 				return
 			}
-			var conds []string
-			for x := trueRet; x != nil; x = x.Idom() {
-				idom := x.Idom()
-				if idom == nil {
-					break
+			names := []string{"cardinality==1", "no location bytes", "docNum fits 31 bits", "docNum is the last one written", "its frequency is 1"}
+			atoms := func(v ssa.Value) (int, bool, bool) {
+				switch x := v.(type) {
+				case *ssa.BinOp:
+					sx := exprSig(x, 0)
+					switch {
+					case x.Op == token.EQL && sx == "(param:termCardinality==1)":
+						return 0, false, true
+					case (x.Op == token.LEQ || x.Op == token.EQL) && strings.Contains(exprSig(x.X, 0), "FinalSize(") && exprSig(x.Y, 0) == "0":
+						return 1, false, true
+					case x.Op == token.GTR && strings.Contains(exprSig(x.X, 0), "FinalSize(") && exprSig(x.Y, 0) == "0":
+						return 1, true, true
+					case x.Op == token.EQL && (strings.HasSuffix(sx, "==free:lastDocNum)") || strings.HasPrefix(sx, "(free:lastDocNum==")):
+						return 3, false, true
+					case x.Op == token.EQL && (sx == "(free:lastFreq==1)" || sx == "(1==free:lastFreq)"):
+						return 4, false, true
+					}
+				case *ssa.Call:
+					if sc := x.Call.StaticCallee(); sc != nil && fnName(sc) == "under32Bits" {
+						return 2, false, true
+					}
 				}
-				if ifi, ok := idom.Instrs[len(idom.Instrs)-1].(*ssa.If); ok && idom.Succs[0] == x && len(x.Preds) == 1 {
-					conds = append(conds, exprSig(ifi.Cond, 0))
-				}
+				return 0, false, false
 			}
-			all := strings.Join(conds, " && ")
-			want := map[string]string{
-				"cardinality == 1":   "(param:termCardinality==1)",
-				"no location bytes":  "FinalSize(",
-				"docNum fits 31 bit": "under32Bits(",
-				"is last docNum":     "==free:lastDocNum)",
-				"frequency == 1":     "(free:lastFreq==1)",
-			}
-			var missing []string
-			for name, frag := range want {
-				if !strings.Contains(all, frag) {
-					missing = append(missing, name)
-				}
-			}
-			sort.Strings(missing)
-			if len(missing) > 0 {
-				r.bad(key, fnName(fn), c.pos(fn.Pos()), "1-hit encoding is chosen without requiring: "+strings.Join(missing, ", ")+" (conditions found: "+all+")")
-			} else {
-				r.ok(key, fnName(fn), c.pos(fn.Pos()), "1-hit only under: "+all)
+			be := &boolExec{fn: fn, atoms: atoms, n: 5}
+			ok, cex, n := be.impliedAt(trueRet, func(asg uint) bool { return asg == 31 })
+			switch {
+			case n == 0:
+				r.undecided(key, fnName(fn), c.pos(fn.Pos()), "`return true` unreachable in the boolean abstraction")
+			case !ok:
+				r.bad(key, fnName(fn), c.pos(fn.Pos()), "1-hit encoding can be chosen when "+describeAsg(names, cex)+": it requires all five conditions")
+			default:
+				r.ok(key, fnName(fn), c.pos(fn.Pos()), "1-hit only when "+strings.Join(names, " && "))
 			}
 		},
 	})
+}
+
+// resolveCellLoad: follow loads of single-assignment local cells.
+func resolveCellLoad(c *Ctx, v ssa.Value) ssa.Value {
+	for d := 0; d < 6; d++ {
+		ld, ok := v.(*ssa.UnOp)
+		if !ok || ld.Op != token.MUL {
+			return v
+		}
+		a, ok := ld.X.(*ssa.Alloc)
+		if !ok {
+			return v
+		}
+		sts := c.census().allocStores[a]
+		if len(sts) != 1 {
+			return v
+		}
+		v = sts[0].val
+	}
+	return v
+}
+
+// derivesFrom: v is param itself, an element/sub-slice of it, or a captured /
+// local copy of one of those.
+func derivesFrom(c *Ctx, v ssa.Value, param *ssa.Parameter, depth int) bool {
+	if depth > 10 {
+		return false
+	}
+	switch x := v.(type) {
+	case *ssa.Parameter:
+		return x == param
+	case *ssa.UnOp:
+		if x.Op != token.MUL {
+			return false
+		}
+		switch a := x.X.(type) {
+		case *ssa.IndexAddr:
+			return derivesFrom(c, a.X, param, depth+1)
+		case *ssa.Alloc:
+			for _, st := range c.census().allocStores[a] {
+				if !derivesFrom(c, st.val, param, depth+1) {
+					return false
+				}
+			}
+			return len(c.census().allocStores[a]) > 0
+		case *ssa.FreeVar:
+			return derivesFrom(c, a, param, depth+1)
+		}
+	case *ssa.FreeVar:
+		fn := x.Parent()
+		for i, fv := range fn.FreeVars {
+			if fv != x {
+				continue
+			}
+			mcs := c.census().closures[fn]
+			if len(mcs) == 0 {
+				return false
+			}
+			for _, mc := range mcs {
+				b := mc.Bindings[i]
+				if al, ok := b.(*ssa.Alloc); ok {
+					// captured by reference: the cell's stores
+					sts := c.census().allocStores[al]
+					if len(sts) == 0 {
+						return false
+					}
+					for _, st := range sts {
+						if !derivesFrom(c, st.val, param, depth+1) {
+							return false
+						}
+					}
+					continue
+				}
+				if !derivesFrom(c, b, param, depth+1) {
+					return false
+				}
+			}
+			return true
+		}
+	case *ssa.Slice:
+		return derivesFrom(c, x.X, param, depth+1)
+	case *ssa.Phi:
+		for _, e := range x.Edges {
+			if !derivesFrom(c, e, param, depth+1) {
+				return false
+			}
+		}
+		return true
+	}
+	return false
 }
 
 // bothEncodersResized: the getChunkSize result reaches SetChunkSize of both
